@@ -61,6 +61,8 @@ func primitiveProcessor[T p.ZogPrimitive](ctx *p.SchemaCtx, tests []Test, postTr
 	defer func() {
 		// only run posttransforms on success
 		if !ctx.HasErrored() {
+			// catch covers coercion, required and tests; an error returned by a PostTransform is always reported
+			ctx.CanCatch = false
 			for _, fn := range postTransforms {
 				err := fn(destPtr, ctx)
 				if err != nil {
@@ -126,6 +128,8 @@ func primitiveValidator[T p.ZogPrimitive](ctx *p.SchemaCtx, tests []Test, postTr
 	defer func() {
 		// only run posttransforms on success
 		if !ctx.HasErrored() {
+			// catch covers required and tests; an error returned by a PostTransform is always reported
+			ctx.CanCatch = false
 			for _, fn := range postTransforms {
 				err := fn(valPtr, ctx)
 				if err != nil {
